@@ -27,7 +27,7 @@ def dotted(node):
 
 
 def base_name(node):
-    while isinstance(node, (ast.Attribute, ast.Subscript, ast.Call)):
+    while isinstance(node, (ast.Attribute, ast.Subscript, ast.Call, ast.Starred)):
         node = node.value if not isinstance(node, ast.Call) else node.func
     return node.id if isinstance(node, ast.Name) else None
 
@@ -38,6 +38,7 @@ class FunctionEffects(ast.NodeVisitor):
         a = fn.args
         self.params = {x.arg for x in a.args + a.kwonlyargs + a.posonlyargs} | ({a.vararg.arg} if a.vararg else set()) | ({a.kwarg.arg} if a.kwarg else set())
         self.fresh = set()         # local names / dotted paths bound to freshly allocated objects in this function
+        self.shallow = set()       # names bound to objects *constructed from* operands: new object, but sub-objects may be shared
         self.alias = {}            # local name -> parameter it may alias
         self.sites = []
         self.errstate_ok = True
@@ -53,7 +54,10 @@ class FunctionEffects(ast.NodeVisitor):
             name = f.attr if isinstance(f, ast.Attribute) else (f.id if isinstance(f, ast.Name) else None)
             if name in FRESH_CALLS or (name and name[:1].isupper()):
                 return True
-            return True if name not in MUTATORS and not self.param_reach(f) else False
+            if name in MUTATORS or self.param_reach(f):
+                return False
+            # a helper applied to (parts of) the operands may hand them back: the result aliases the operands
+            return not any(self.param_reach(a) or base_name(a) in self.shallow for a in list(v.args) + [k.value for k in v.keywords])
         return False
 
     def param_reach(self, node):
@@ -64,6 +68,8 @@ class FunctionEffects(ast.NodeVisitor):
         d = dotted(node)
         if d is not None and any(d == f or d.startswith(f + ".") for f in self.fresh):
             return False
+        if b in self.shallow:
+            return not isinstance(node, ast.Name)       # the new object itself is ours; what hangs off it may be shared with the operands
         if b in self.fresh:
             return False
         return b in self.params or b in self.alias
@@ -95,13 +101,29 @@ class FunctionEffects(ast.NodeVisitor):
             self.generic_visit(node.value)
 
     def target(self, t, value, node):
+        if isinstance(value, ast.IfExp):
+            # either branch may be taken: analyse the operand-reaching one last so that aliasing wins over freshness
+            branches = sorted([value.body, value.orelse], key=lambda b: 0 if self.is_fresh_expr(b) else 1)
+            for b in branches:
+                self.target(t, b, node)
+            return
         if isinstance(t, ast.Name):
+            self.shallow.discard(t.id)
             if self.is_fresh_expr(value):
                 self.fresh.add(t.id)
                 self.alias.pop(t.id, None)
+                if isinstance(value, ast.Call) and any(self.param_reach(a) or base_name(a) in self.shallow for a in list(value.args) + [k.value for k in value.keywords]
+                                                       if not isinstance(a, ast.Constant)):
+                    f_ = value.func
+                    nm = f_.attr if isinstance(f_, ast.Attribute) else (f_.id if isinstance(f_, ast.Name) else "")
+                    if nm not in ("dict", "list", "set", "tuple", "copy", "deepcopy", "sorted", "len", "str", "repr", "fields"):
+                        self.shallow.add(t.id)
+                        self.fresh.discard(t.id)
             else:
                 self.fresh.discard(t.id)
                 b = base_name(value) if value is not None else None
+                if isinstance(value, ast.Call) and not (b in self.params or b in self.alias):
+                    b = next((base_name(a) for a in list(value.args) + [k.value for k in value.keywords] if self.param_reach(a)), b)
                 if b in self.params or b in self.alias:
                     self.alias[t.id] = b
             if t.id in self.params:
@@ -114,7 +136,18 @@ class FunctionEffects(ast.NodeVisitor):
                         self.alias[t.id] = t.id
         elif isinstance(t, (ast.Tuple, ast.List)):
             for e in t.elts:
-                self.target(e, None if not isinstance(value, (ast.Tuple, ast.List)) else None, node)
+                if isinstance(e, ast.Name) and value is not None and not self.is_fresh_expr(value):
+                    b = base_name(value) if not isinstance(value, ast.Call) else next((base_name(a) for a in value.args if self.param_reach(a) or base_name(a) in self.shallow), None)
+                    self.fresh.discard(e.id)
+                    if b is not None:
+                        if b in self.shallow:
+                            self.shallow.add(e.id)
+                        else:
+                            self.alias[e.id] = b
+                elif isinstance(e, ast.Name):
+                    self.fresh.add(e.id)
+                else:
+                    self.target(e, None, node)
         elif isinstance(t, (ast.Attribute, ast.Subscript)):
             d = dotted(t)
             if self.param_reach(t.value):
@@ -138,6 +171,25 @@ class FunctionEffects(ast.NodeVisitor):
         for t in node.targets:
             if isinstance(t, (ast.Attribute, ast.Subscript)) and self.param_reach(t.value):
                 self.flag(node, "delete-through-parameter", ast.unparse(node))
+
+    def visit_For(self, node):
+        # the loop variable aliases the elements of what is iterated over
+        it = node.iter
+        src = base_name(it) if not isinstance(it, ast.Call) else next((base_name(a) for a in it.args if self.param_reach(a)), None)
+        if isinstance(it, ast.Call) and isinstance(it.func, ast.Attribute) and self.param_reach(it.func.value):
+            src = base_name(it.func.value)
+        if src is None and base_name(it) in self.shallow:
+            src = base_name(it)
+        for e in ([node.target] if isinstance(node.target, ast.Name) else [x for x in ast.walk(node.target) if isinstance(x, ast.Name)]):
+            if src is not None and src in self.shallow:
+                self.shallow.add(e.id)
+                self.fresh.discard(e.id)
+            elif src is not None and (src in self.params or src in self.alias) and src not in self.fresh:
+                self.alias[e.id] = src
+                self.fresh.discard(e.id)
+        self.visit(it)
+        for st in node.body + node.orelse:
+            self.visit(st)
 
     def visit_With(self, node):
         for item in node.items:
